@@ -58,14 +58,33 @@ theorem ypd_frameErr_stop (cfg : Cfg) (hstop : cfg.onFrameErr = .stop) (X : Byte
 
 /-! ## exact behaviour on well-formed, cleanly classified entries -/
 
-/-- no panic in the envelope parser, and an undecodable payload does not stop the loop -/
+theorem parseEnvelope_isSome (p : Bytes) : ∃ r, parseEnvelope p = some r := by
+  unfold parseEnvelope
+  split
+  · simp only []; split <;> exact ⟨_, rfl⟩
+  · exact ⟨_, rfl⟩
+
+/-- the envelope parser of the current source never panics -/
+theorem classify_ne_panic (cfg : Cfg) (ts : Nat) (p : Bytes) : classify cfg ts p ≠ .panic := by
+  unfold classify
+  obtain ⟨r, hr⟩ := parseEnvelope_isSome p
+  rw [hr]
+  obtain ⟨db, inner⟩ := r
+  simp only []
+  cases cfg.dec inner with
+  | none => simp
+  | some d => obtain ⟨rows, val⟩ := d; simp
+
+/-- an undecodable payload does not stop the loop (always true for the current source, whose
+`onDecodeErr` is `cont`) -/
 def Entry.Clean (cfg : Cfg) (e : Entry) : Prop :=
-  classify cfg e.ts e.payload ≠ .panic ∧ (cfg.onDecodeErr = .cont ∨ classify cfg e.ts e.payload ≠ .skip)
+  cfg.onDecodeErr = .cont ∨ classify cfg e.ts e.payload ≠ .skip
 
 theorem scanA_encode (cfg : Cfg) (e : Entry) (R : Bytes) (hwf : e.WF) (hc : e.Clean cfg) :
     scanA cfg (encodeEntry e ++ R) = classify cfg e.ts e.payload :: scanA cfg R := by
   rw [scanA_unfold, readEntry_encode e R hwf]
-  obtain ⟨h1, h2⟩ := hc
+  have h1 := classify_ne_panic cfg e.ts e.payload
+  have h2 := hc
   simp only []
   cases hcl : classify cfg e.ts e.payload with
   | panic => exact absurd hcl h1
@@ -116,7 +135,7 @@ theorem panics_evsOf (cfg : Cfg) (es : List Entry) (hc : ∀ e ∈ es, e.Clean c
   induction es with
   | nil => rfl
   | cons e es ih =>
-    have h1 := (hc e (by simp)).1
+    have h1 := classify_ne_panic cfg e.ts e.payload
     have ih' := ih (fun x hx => hc x (by simp [hx]))
     simp only [evsOf, List.map_cons] at ih' ⊢
     cases hcl : classify cfg e.ts e.payload with
@@ -167,7 +186,7 @@ theorem scanA_truncate (cfg : Cfg) (es : List Entry) (hwf : ∀ e ∈ es, e.WF) 
       · simp only [view?]
         cases hcl : classify cfg e.ts e.payload <;> simp [yielded, i1]
       · cases hcl : classify cfg e.ts e.payload with
-        | panic => exact absurd hcl hce.1
+        | panic => exact absurd hcl (classify_ne_panic cfg e.ts e.payload)
         | out o => simpa [panics] using i2
         | skip => simpa [panics] using i2
     · have hcomp : complete (e :: es) m = 0 := by simp [complete, hm]
